@@ -45,11 +45,25 @@ Theorem C19_assign_breaks_value_semantics : exists ops v,
   fst (get_attr s (vars s v) 3) <> [] /\ N.testbit (abits (vars s v)) 3 = false.
 Proof. exact assign_witness. Qed.
 
-(* Text form.  The space-separated schema syntax is undone by strings.Fields exactly on
-   non-empty, space-free tokens; the key dictionaries regenerated from the sources are
-   injective after lower-casing.  The composition (write then parse gives an equal set)
-   is decided on generated sets by the correspondence check and the direct oracle
-   (see evidence); it is NOT a theorem yet. *)
+(* Text form, versiontest: String then ParseString returns exactly the present (key, value)
+   pairs of the set, in schema order, for every set of every state whose valued keys carry
+   non-empty, space-free ASCII values (the space-separated syntax cannot carry others:
+   the two C19_ver_roundtrip_refuted theorems).  For dependency types (quoted values, deptest.ParseString)
+   the composition is decided by the correspondence check and the direct oracle; the
+   ingredients proved are below. *)
+Theorem C19_ver_roundtrip : forall s a,
+  forallb ver_pair_ok (present s a vertest_all_keys) = true ->
+  ver_parse (ver_write s a) = PVal (present s a vertest_all_keys).
+Proof. exact ver_roundtrip. Qed.
+Print Assumptions C19_ver_roundtrip.
+
+Example C19_ver_roundtrip_nonvacuous :
+  let s := build [(1, [110; 97; 109; 101]%N); ((-1), []); (10, [108; 97; 116; 101; 115; 116]%N)]%Z in
+  forallb ver_pair_ok (present s (vars s 0%nat) vertest_all_keys) = true /\
+  present s (vars s 0%nat) vertest_all_keys =
+    [((-1), []); (1, [110; 97; 109; 101]%N); (10, [108; 97; 116; 101; 115; 116]%N)]%Z.
+Proof. vm_compute. split; reflexivity. Qed.
+
 Theorem C19_fields_join_partial : forall items,
   forallb token_ok items = true -> fields (join [32%N] items) = items.
 Proof. exact fields_join. Qed.
